@@ -154,6 +154,11 @@ def pot_shape(shape: str) -> dict:
         setup = "flip = 0\n"
         body = ['mon.write("#d0")', "p0.read()"] + one(0, "p0") + ["flip = 1 - flip", "if flip == 1:", '    mon.write("#d0")', "    p0.read()", "settle()"] + one(0, "p0")
         meta.update(pots=[{"i": 0, "pin": 15}], per_pass=[0] * 5, in_setup=[])
+    elif shape == "rebound":     # ONE variable bound to a potentiometer on A1, read, then bound to one on A3: read() reads the pin of
+        decl = 'p0 = Potentiometer("A1")\n'                      # the device the name holds NOW
+        setup = 'mon.write("#p0")\nmon.write(p0.read())\np0 = Potentiometer("A3")\nmon.write("#p1")\nmon.write(p0.read())\n'
+        body = ['mon.write("#p1")', "mon.write(p0.read())", 'mon.write("#p1")', "level = p0.read()", "mon.write(level)"]
+        meta.update(pots=[{"i": 0, "pin": 15}, {"i": 1, "pin": 17}], per_pass=[1, 1], in_setup=[0, 1])
     elif shape == "inbool":      # read() as an operand of `or` / `and` / `not` / a conditional expression: still ONE read per call
         decl = 'p0 = Potentiometer("A1")\n'
         setup = "zero = 0\none = 1\nkeep = 0\n"
